@@ -77,13 +77,7 @@ def check_pair(ctx, case):
         dul, raw = h.dul, h.raw
         if is_rq and state not in ("Sta1", "Sta4"):
             # a requestor in these states has a connected transport
-            rqp = P.A_ASSOCIATE()
-            rqp.called_presentation_address = AddressInformation("127.0.0.1", 11112)
-            h.sock.connect(T_CONNECT(rqp))
-            raw = h.raw = h.sock.socket
-            while not dul.to_provider_queue.empty():
-                dul.to_provider_queue.get(False)
-            h.events.clear()
+            raw = h.connect_now()
         if case["artim"]:
             h.timer.running = True
         starts0, running0 = h.timer.starts, h.timer.running
